@@ -121,7 +121,7 @@ class Monitor(object):
         self.log = []
         self.rec = rec
         self.with_cb = with_cb
-        self.cls = "min_size=default->0" if (min_size is None and max_size // 3 == 0) else \
+        self.cls = "min_size=default, max_size<=2" if (min_size is None and max_size // 3 == 0) else \
             ("min_size=default" if min_size is None else "min_size given")
         kwargs = {}
         if min_size is not None:
